@@ -162,6 +162,9 @@ Proof.
   apply all_gt_forall. intros k' I. eapply all_gt_In; eauto. eapply subseq_In; eauto.
 Qed.
 
+Lemma subseq_filter : forall {A : Type} (p : A -> bool) (l : list A), subseq (filter p l) l.
+Proof. induction l as [|a l IH]; cbn; [constructor|]. destruct (p a); constructor; assumption. Qed.
+
 (* ------------------------------------------------------------------ load_fields *)
 Definition lf_step (m : list (key * fspec)) (fd : fielddef) : list (key * fspec) :=
   match type_code (fd_type fd) with
@@ -385,7 +388,8 @@ Proof.
     assert (A3 : forallb (fun kv : key * mtab_entry => key_eqb (fst kv) (me_type (snd kv))) (mtab_of x) = true).
     { apply forallb_forall. intros [k e] I. cbn. rewrite (M2 _ _ I). apply key_eqb_refl. }
     rewrite A1, A2, A3. cbn [andb].
-    apply keys_sorted_ssorted. rewrite CM. unfold load_comps. apply (fold_ins_sorted fst snd). constructor. }
+    apply keys_sorted_ssorted. apply (ssorted_subseq _ (sm_keys (x_comps x))); [apply subseq_filter|].
+    rewrite CM. unfold load_comps. apply (fold_ins_sorted fst snd). constructor. }
   rewrite WT. rewrite (sm_sorted_ssorted nodes) by assumption. cbn [andb].
   (* every node is well-formed *)
   assert (WN : forallb (fun kn : key * mnode => wf_node (snd kn)) nodes = true).
